@@ -26,6 +26,16 @@ def model_len(rc, b):
 def eval_case(a5, cells, t, ctx, case):
     snapshot = copy.deepcopy(cells)
     res = [a5.get_resolution(c) for c in cells]
+    if cells and ctx.rnd.random() < 0.2:
+        # another part of the program expanded one of these cells before and edited the list it got (a DFS stack, a trimmed list)
+        cx = cells[ctx.rnd.randrange(len(cells))]
+        rx = a5.get_resolution(cx)
+        if rx <= t <= rx + 5:
+            tmp = a5.cell_to_children(cx, t)
+            tmp.reverse()
+            del tmp[len(tmp) // 2:]
+            tmp.append(0)
+            ctx.count('children_lists_edited_before_call')
     finer = any(r > t for r in res)
     try:
         out = a5.uncompact(cells, t)
